@@ -98,14 +98,14 @@ func runImportOrder(t *testing.T, id string, salt uint64) {
 		for i, r := range rows {
 			stored = append(stored, r["id"].N.String())
 			if i > 0 && r["id"].N.Cmp(rows[i-1]["id"].N) <= 0 {
-				w.V("C08|C09", "after the import (%s, answer: %v) the journal of the copy holds, in commit order, log %s after log %s: ids do not increase in commit order\nsource history:\n  %s", desc, err, r["id"].N, rows[i-1]["id"].N, src.History())
+				w.V("C08|C09|C16", "after the import (%s, answer: %v) the journal of the copy holds, in commit order, log %s after log %s: ids do not increase in commit order\nsource history:\n  %s", desc, err, r["id"].N, rows[i-1]["id"].N, src.History())
 			}
 		}
 		if err == nil && len(rows) != len(stream) {
 			w.V("C08", "the import (%s) reported success but stored %d of %d logs: [%s]", desc, len(rows), len(stream), strings.Join(stored, ","))
 		}
 		if err == nil && !increasing {
-			w.V("C08|C09", "the import accepted a stream whose ids do not increase (%s)\nsource history:\n  %s", desc, src.History())
+			w.V("C08|C09|C16", "the import accepted a stream whose ids do not increase (%s)\nsource history:\n  %s", desc, src.History())
 		}
 		// ---- the journal alone determines the state of the copy
 		w.Reopen(cp)
@@ -139,3 +139,4 @@ func runImportOrder(t *testing.T, id string, salt uint64) {
 
 func TestC08ImportOrder(t *testing.T) { runImportOrder(t, "C08", 808) }
 func TestC09ImportOrder(t *testing.T) { runImportOrder(t, "C09", 909) }
+func TestC16ImportOrder(t *testing.T) { runImportOrder(t, "C16", 1616) }
